@@ -53,6 +53,7 @@ def strategy(ctx):
         "source": st.sampled_from(["factory", "factory", "search"]),
         "tests": st.lists(st.tuples(st.integers(0, 10**6), st.integers(2, 9)).map(list), min_size=2, max_size=5),
         "iterations": st.integers(2, 5),
+        "rebind": st.one_of(st.just([]), st.lists(st.integers(0, 11), min_size=4, max_size=8)),
         "assertion": st.sampled_from(modes),
         "post_process": st.booleans(),
         "strategy": st.sampled_from(STRATS),
@@ -101,6 +102,13 @@ def _child(case: dict[str, Any]) -> dict[str, Any]:
         else:
             chroms = [s.chromosome(s.random_test_case(seed, size)) for seed, size in case["tests"]]
             suite = s.suite(chroms)
+        if case.get("rebind"):
+            # tests that re-bind variable names (hand-written / seeded / LLM tests do; the factory never does)
+            from vf.rebind import rebind
+
+            rebound = [s.chromosome(rebind(ch.test_case, case["rebind"])[0]) for ch in suite.test_case_chromosomes]
+            cov_functions = list(suite.get_coverage_functions()) if hasattr(suite, "get_coverage_functions") else []
+            suite = s.suite(rebound, coverage_functions=cov_functions or list(s.algorithm.test_suite_coverage_functions))
         s.executor.clear_observers()
         s.executor.clear_remote_observers()
         gen._generate_assertions(s.executor, suite, s.cluster)
@@ -225,6 +233,8 @@ def _analyse(case: dict[str, Any], res: dict[str, Any], out: Outcome) -> None:
                      f"case={case}\nfunction {fn.name}:\n{ast.unparse(fn)[:700]}\nmissing (for the closest snapshot test): {missing[:6]}")
     out.labels.append(f"assertion-mode:{case['assertion']}")
     out.labels.append(f"post_process:{case['post_process']}|{case['strategy']}")
+    if case.get("rebind"):
+        out.labels.append("class:rebinds-variable-names")
     if n_asserted_unread:
         out.labels.append("class:asserted-variable-not-read-later")
     out.nontrivial = n_asserted_unread >= 1 and kept_asserts >= 1
